@@ -9,7 +9,7 @@ import time
 VERIF = os.path.dirname(os.path.dirname(os.path.dirname(os.path.abspath(__file__))))
 # evidence of runs against a scratch copy (VERIF_REPO=..., used for mutation self-tests) must never overwrite the
 # committed evidence of /repo itself
-_scratch = os.path.abspath(os.environ.get("VERIF_REPO", "/repo")) != "/repo"
+_scratch = os.path.abspath(os.environ.get("VERIF_REPO", "/repo")) != "/repo" or bool(os.environ.get("VERIF_PKG_OVERRIDE"))
 EVIDENCE_DIR = os.path.join(VERIF, ".build", "evidence-scratch") if _scratch else os.path.join(VERIF, "evidence")
 REPLAY_RUN_DIR = os.path.join(VERIF, ".build", "replay")
 REPLAY_DIR = os.path.join(VERIF, "replay")
@@ -196,6 +196,34 @@ class Failure(Exception):
         self.message = message
 
 
+def library_raised(exc):
+    """If `exc` escaped from a check body and was raised *by the library* - its innermost frame is in the library's own
+    Python code, or its class belongs to gufo.snmp / is a PyO3 panic - return a signature for it, else None.
+    Every call a property speaks about has an outcome the check anticipates (a value, a documented exception); the
+    checks pass on the unchanged tree without any such escape, so an escape of this kind is behaviour of the changed
+    library at a point where the statement prescribes something else (a NameError inside wait(), a TypeError inside
+    User()), and is reported as a violation rather than as a harness fault.  Exceptions raised by harness code stay
+    harness faults (exit 2)."""
+    if isinstance(exc, (Failure, Inconclusive, KeyboardInterrupt, SystemExit, MemoryError)):
+        return None
+    tb = exc.__traceback__
+    last = None
+    while tb is not None:
+        last = tb
+        tb = tb.tb_next
+    where = None
+    if last is not None:
+        fn = last.tb_frame.f_code.co_filename.replace("\\", "/")
+        if "/gufo/snmp/" in fn and "/verif/py/" not in fn:
+            where = "%s:%s" % (fn.split("/gufo/snmp/")[-1], last.tb_frame.f_code.co_name)
+    mod = type(exc).__module__ or ""
+    if where is None and (mod.startswith("gufo.snmp") or type(exc).__name__ == "PanicException"):
+        where = "extension"
+    if where is None:
+        return None
+    return "library-raised:%s:%s" % (type(exc).__name__, where)
+
+
 def run_hypothesis(rep, strategy, body, max_examples, label="", describe=None, stop_after=1):
     """Run `body(case)` over `strategy` with Hypothesis.
 
@@ -218,7 +246,13 @@ def run_hypothesis(rep, strategy, body, max_examples, label="", describe=None, s
             if state["runs_after"] > SHRINK_RUNS or time.time() - state["t_fail"] > SHRINK_SECONDS:
                 return
         try:
-            body(case)
+            try:
+                body(case)
+            except BaseException as e:  # noqa: BLE001
+                sig = library_raised(e)
+                if sig is None:
+                    raise
+                raise Failure(sig, "the library raised %r where the check expects one of the outcomes the statement allows" % (e,)) from e
         except Failure as f:
             if rep.known_hit(f.signature):
                 return
